@@ -53,6 +53,17 @@ def _skipargs(rnd):
 def gen_case(rnd, B):
     """returns dict(argv, expected lines or None for refusal, tag, nontrivial)"""
     kind = rnd.choice(["date"] * 5 + ["month"] * 2 + ["time"] * 3 + ["dt"] * 2 + ["refuse"] * 2 + ["edge"])
+    if kind == "edge" and rnd.random() < 0.4:
+        # calendar-day steps between business-day dates: the day after a Friday has no business-day
+        # value, so the progression cannot be continued; whatever is printed, the run must end, stay
+        # between the bounds and move in the direction of INC
+        n0 = rnd.randrange(R.NMIN + 3000, R.NMAX - 3000)
+        while not R.is_bday(n0):
+            n0 += 1
+        last = R.add_bdays(n0, rnd.randrange(1, 30))
+        k = rnd.choice((1, 1, 2, 3, 4))
+        return {"argv": ["--", R.f_bizda(n0), "%dd" % k, R.f_bizda(last)], "exp": [R.f_bizda(n0)], "mode": "finite",
+                "tag": "bizda:+d:finite", "nt": True}
     if kind == "edge":
         # the first weeks of the range: a step below the first day must end the run, not confuse it
         rep = rnd.choice(("ymd", "ymd", "ywd", "yd"))
@@ -101,7 +112,8 @@ def gen_case(rnd, B):
             seq = seq2[::-1]
         exp = [REP[rep](n) for n in seq if R.wday(n) not in skips]
         inc = "%s%d%s" % ("-" if sign < 0 else "", k, unit)
-        omit = (unit == "d" and k == 1 and sign > 0 and rnd.random() < 0.5)
+        # without INC dates step by a day, business-day dates by a business day
+        omit = (unit == ("b" if rep == "bizda" else "d") and k == 1 and sign > 0 and rnd.random() < 0.5)
         argv = skipargs + (["--compute-from-last"] if cfl else []) + ["--", REP[rep](n0)] + ([] if omit else [inc]) + [REP[rep](last)]
         nt = (len(exp) >= 3 and R.ymd(seq[0])[:2] != R.ymd(seq[-1])[:2]) or slack != 0 or len(exp) != len(seq)
         return {"argv": argv, "exp": exp, "tag": "date:%s:%s%s%s%s" % (rep, "-" if sign < 0 else "+", unit,
@@ -230,7 +242,7 @@ def gen_case(rnd, B):
 
 def judge(ctx, case):
     exp = case["exp"]
-    cap = (2 * len(exp) + 64) * 48
+    cap = (2 * len(exp) + 64) * 48 if case.get("mode") != "finite" else 200 * 48
     r = run_args(ctx.build, "dseq", case["argv"], cap=cap, timeout=10.0)
     if r.overflowed or r.timed_out:
         return ("endless", "%d lines" % len(exp), {"overflowed": r.overflowed, "timed_out": r.timed_out,
@@ -238,6 +250,13 @@ def judge(ctx, case):
     if r.crashed:
         return ("crash", "no crash", r.brief())
     got = r.lines()
+    if case.get("mode") == "finite":
+        # first line is FIRST, lines strictly increase and stay <= LAST (text order = date order for bizda)
+        lastb = case["argv"][-1]
+        ok = got[:1] == exp[:1] and all(a < b for a, b in zip(got, got[1:])) and all(g <= lastb for g in got)
+        ok = ok or (not got and r.rc != 0)      # refused, e.g. FIRST is a Friday and the step leads nowhere
+        return None if ok else ("finite-shape", "refused, or: starts with FIRST, strictly increasing, <= LAST",
+                                {"n": len(got), "got": got[:6], "rc": r.rc})
     if got != exp:
         i = 0
         while i < min(len(got), len(exp)) and got[i] == exp[i]:
@@ -259,7 +278,7 @@ def seq(ctx, shard, nshards):
         if case["nt"]:
             sub.nt(tuple(case["argv"]))
         if f:
-            V.add("%s:%s" % (case["tag"], f[0]), {"argv": case["argv"], "exp": case["exp"], "kind": "seq"},
+            V.add("%s:%s" % (case["tag"], f[0]), {"argv": case["argv"], "exp": case["exp"], "kind": "seq", "mode": case.get("mode")},
                   expected=f[1], actual=f[2], weight=len(case["exp"]) * 100 + len(" ".join(case["argv"])))
         if it < 3 and shard == 0:
             sub.sample({"cmd": "dseq " + " ".join(case["argv"]), "expected_lines": len(case["exp"]),
